@@ -212,7 +212,8 @@ def by_class():
 
 # no statement of the base refers to another one, so a fault block planted between any two of them (e.g. 200 words
 # of '.blkw') cannot break the base program itself
-BASE = ["start{f}: mov #1, r0", "add r0, r1", "loop{f}: sob r1, loop{f}", "bis r0, (r1)+", "mov r1, @#176", "halt"]
+# (names with a dot inside are ordinary names: 'loop.m', 'io.base.m')
+BASE = ["start{f}: mov #1, r0", "add r0, r1", "loop.{f}: sob r1, loop.{f}", "bis r0, (r1)+", "io.base.{f} = 176", "mov r1, @#io.base.{f}", "halt"]
 
 
 def base_statements(tag):
